@@ -6,6 +6,14 @@ ROOT = os.path.dirname(os.path.dirname(os.path.abspath(__file__)))
 
 # id -> (technique, level text, level note, design ref)
 CLAIMED = {
+ "C04": ("property-based testing (proptest): generated layered lexicons; differential against a naive linear scan of the source rows at every byte offset",
+         "Exploration: for generated system+user lexicons (prefix chains, 1-127 homographs, non-indexed rows, UTF-8 width boundaries) the multiset of (dictionary, word, end) reported by lookup at every byte offset of generated texts equals a linear scan of the CSV model; exact-surface lookup likewise; one >10,000-id dictionary per run. No absence claim.",
+         "Trusts the harness' CSV renderer and byte-wise prefix comparison. Keys containing NUL are not generated (the double-array format cannot hold them; see C06).",
+         "DESIGN.md section 4, C04"),
+ "C05": ("property-based testing (proptest): round trip compile -> load against the generating model; twice-compile determinism; 4-alignment differential",
+         "Exploration: every field of every generated row is read back through the public accessors and compared with the model (boundary-length strings, surrogates, escapes, references, 126/127-item arrays, any matrix shape); compilation is repeated and compared byte for byte; the dictionary is loaded at buffer offsets 0..3 and all observations (fields, matrix, analyses) must agree. No absence claim.",
+         "Trusts the model's reference resolution (first matching row for inline references) and the CSV/matrix renderer. Misaligned reads that abort the process are reported through the crash-signal handler.",
+         "DESIGN.md section 4, C05"),
  "C03": ("property-based testing (proptest) + enumerated length-boundary family; panic/overflow/debug-assert monitors under catch_unwind; reference normaliser for the success clause",
          "Exploration: generated dictionaries x configurations x texts (incl. NUL, controls, unassigned, astral, combining, expanders) x modes x field subsets, every accessor called with debug assertions and overflow checks on; inputs on both sides of the 49,149 / 65,535 byte limits are enumerated for a fixed fallback configuration. No absence claim.",
          "Trusts the unicode-normalization crate (reference normalised length), proptest, and that debug assertions + overflow checks + catch_unwind make out-of-range accesses visible (get_unchecked reads are additionally covered by the ASan fuzz target when built). Known finding F7 is outside the generated domain.",
